@@ -4,8 +4,8 @@ import json, os
 V = os.path.dirname(os.path.abspath(__file__))
 
 CHECKS = {
- "C01": ("exploration", "4 C01", "Seeded search over wake schedules and fault sequences (spurious polls, fresh waker per poll, stale/duplicate/in-poll/lock-boundary wakes, never-ready children) with the notification invariant (CP1/CP2) checked at every event and bounded liveness checked at quiescence against per-family reference models; all three feature configurations; engine B (shuttle) re-checks the std waker protocol under real thread interleavings."),
- "C02": ("fault_enumeration", "4 C02", "For each sampled scenario every crash point is enumerated: drop of the combinator after k polls for all k, and a panic at every single child poll; drop/return accounting of every child and value (tracked handles with canaries) is checked at the end of each execution."),
+ "C01": ("exploration", "4 C01", "Seeded search over wake schedules and fault sequences (spurious polls, fresh waker per poll, stale/duplicate/in-poll/lock-boundary wakes, never-ready children) with the notification invariant (CP1/CP2) checked at every event and bounded liveness checked at quiescence against per-family reference models, flat and nested shapes and group histories, all three feature configurations (engine A); plus the std waker protocol under real thread interleavings of a poller and 1-3 foreign waker threads decided by shuttle's seeded Random/PCT schedulers, where a lost wake-up is a detected deadlock (engine B)."),
+ "C02": ("fault_enumeration", "4 C02", "For each sampled scenario every crash point is enumerated: drop of the combinator after k polls for all k, and a panic at every single child poll; drop/return accounting of every child and value (plain-integer handles with canaries) is checked at the end of each execution. Engine B adds drops of the combinator on the poller thread while foreign waker threads still fire. The thorough tier additionally interprets a sample of the same executions under Miri; a process killed by a signal is reported as a violation with the execution that caused it."),
  "C03": ("exploration", "4 C03", "Log predicates over every simulated execution: no poll after Ready/None, every child poll inside a poll frame of its owner, none during construction, group operations or drop."),
  "C04": ("exploration", "4 C04", "Log-relative reference model of join evaluated at the end of every root poll (resolves exactly in the frame of the last child, positional output), all containers and sizes incl. 22/23 and 64/65 boundaries."),
  "C05": ("exploration", "4 C05", "Log-relative reference model of try_join (first observed error wins in that frame, nothing polled afterwards, produced values dropped not returned)."),
@@ -42,7 +42,7 @@ for pid in sorted(CHECKS):
         "engine": "sim (engine A)" + (" + mt (engine B, shuttle)" if pid in ("C01", "C02") and os.path.isdir(os.path.join(V, "mt")) else ""),
         "level_claimed": {"category": level, "text": text, "design_ref": "DESIGN.md §" + ref},
         "level_note": "Trusted base: the simulator in /verif/sim (scripted children, generation-strict executor, oracles), rustc, and the assumption that children follow the scripted-leaf language (no wake from Drop, no re-entrant polling). Sampling of schedules/faults, not enumeration (C02: crash points are enumerated per sampled scenario).",
-        "technique": "deterministic simulation with fault injection (seeded schedule/fault search, reference-model oracles over the event log)",
+        "technique": ("deterministic simulation with fault injection: seeded schedule/fault search with reference-model oracles over the event log" + ("; complete crash-point enumeration per sampled scenario" if pid == "C02" else "") + ("; shuttle-controlled thread interleavings" if pid in ("C01", "C02") else "")),
     })
 na = [{"property_id": k, "reason": v} for k, v in NA.items()]
 for pid in sorted(CHECKS):
